@@ -382,6 +382,13 @@ class HistoryRunner:
         nested = has_nested_csum(m)
         self.pre_csum = {t: r.csum for t, r in m.rec.items()}
         n_mods = len(m.concurrent_mod)
+        # what the single-round out-of-band settle of the implementation would execute (known finding D12, exactly)
+        self._d12_ex = None
+        if nested:
+            try:
+                self._d12_ex = m.single_round_outcomes(kind, targets)
+            except RecursionError:
+                self._d12_ex = None
         ok_model = m.cmd_redo(targets) if kind == "redo" else m.cmd_ifchange(targets)
         self._mods_this_cmd = m.concurrent_mod[n_mods:]
         for p_ in self._mods_this_cmd:
@@ -472,6 +479,12 @@ class HistoryRunner:
         cex, mex = collections.Counter(ex), collections.Counter(m.executed)
         if cex_override:
             cex = mex
+        # an over-build is the known finding D12 iff the single-round settle predicts exactly the executed set
+        d12x = getattr(self, "_d12_ex", None)
+        self._d12 = bool(nested and d12x is not None and frozenset(cex.items()) in d12x and cex != mex)
+        if nested and cex != mex and not (mex - cex):
+            ev["d12:over-build-in-nested-checksum-project/%s" % ("explained-by-single-round-settle" if self._d12
+                                                                  else "NOT-explained")] += 1
         if "csum" in ch:
             # C03's own clauses first, so that a change that is not forwarded is reported as that (and not only as
             # the stale content it causes)
@@ -521,7 +534,7 @@ class HistoryRunner:
                 self.violate(prop, "exec-set", dict(ctx, extra=extra, missing=missing),
                              {"symptom": "extra" if extra and not missing else
                               ("missing" if missing and not extra else "both"),
-                              "nested_csum": bool(nested and not missing)})
+                              "nested_csum": bool(self._d12 and not missing)})
             if self.pending_changes and mex and len(set(mex)) < len(m.targets):
                 self.out.nontrivial = True
             if not self.pending_changes and not mex:
@@ -686,7 +699,7 @@ class HistoryRunner:
                 extra = [d for d in (cex - mex).elements() if d in dependents]
                 if extra:
                     self.violate("C03", "not-stopped", dict(ctx, csum_target=c, extra=sorted(extra)),
-                                 {"symptom": "extra", "nested_csum": bool(nested)})
+                                 {"symptom": "extra", "nested_csum": bool(getattr(self, "_d12", False))})
             elif ok:
                 # (b) forwards: every *direct* dependent inside the requested closure ran in this very command
                 # (a dependent behind another checksummed target may legitimately be cut off there), and so did
@@ -707,7 +720,7 @@ class HistoryRunner:
             missing = sorted((mex - cex).elements())
             if extra and not missing and nested:
                 self.violate("C03", "not-stopped", dict(ctx, extra=extra),
-                             {"symptom": "extra", "nested_csum": True})
+                             {"symptom": "extra", "nested_csum": bool(getattr(self, "_d12", False))})
             self.out.diverged = "exec-set"
             ev["diverged:exec-set"] += 1
 
